@@ -324,3 +324,43 @@ func (d *driver) suiteRandom() {
 		t.end()
 	}
 }
+
+// suiteRepro: hand-written reductions of histories that random programs found (kept as regression programs).
+func (d *driver) suiteRepro() {
+	for variant := 0; variant < 3; variant++ {
+		t := d.newTraceOn("repro-remove-in-own-tx", variant)
+		t.write("AddIfNotExist", "k1", nil)
+		t.write("Add", "k1", []valSpec{t.val("str", 1200), t.val("str", 24000)})
+		t.readDecoder(0, "k1", 0, -1)
+		t.remove("k1")
+		t.write("Upsert", "k1", []valSpec{t.val("num", 1), t.val("str", 49)})
+		t.readDecoder(0, "k1", 0, -1)
+		t.commit()
+		t.observe()
+		t.commit()
+		t.remove("k1")
+		t.remove("k2")
+		t.commit()
+		t.observe()
+		t.commit()
+		t.end()
+	}
+	for i, variant := range []int{2, 2, 2} {
+		t := d.newTraceOn(fmt.Sprintf("repro-remove-only-tx-%d", i), variant)
+		t.write("Add", "k1", []valSpec{t.val("num", 1), t.val("str", 49)})
+		if i >= 1 {
+			t.write("Add", "k2", []valSpec{t.val("num", 1)})
+		}
+		t.commit()
+		t.observe()
+		t.commit()
+		t.remove("k1")
+		if i == 2 {
+			t.remove("k2")
+		}
+		t.commit()
+		t.observe()
+		t.commit()
+		t.end()
+	}
+}
